@@ -40,6 +40,8 @@ def check_tx(spec, ctx):
     multi = len(ex) > 1
     if strand == "-":
         ctx.label("minus")
+    if len(ex) >= 8:
+        ctx.label("exons>=8")
     lo, hi = ex[0][0], ex[-1][1]
     ctx.eq("len_transcript", len(tx), n)
     if spec.get("exon_order") and spec["exon_order"] != sorted(spec["exon_order"]):
@@ -283,7 +285,11 @@ def strat_introns(draw, tier="quick"):
 @st.composite
 def strat_tx(draw, tier="quick"):
     big = tier == "thorough"
-    sp = draw(S.transcript_spec(max_exons=5 if not big else 6, max_len=8 if not big else 12, frameshift_prob=20, cds_gap_prob=6, cds_overlap_prob=6))
+    if draw(st.integers(0, 9)) == 0:
+        # many short exons (real genes have dozens): 8..14 blocks
+        sp = draw(S.transcript_spec(min_exons=8, max_exons=14, max_len=4, frameshift_prob=20, cds_gap_prob=6, cds_overlap_prob=12))
+    else:
+        sp = draw(S.transcript_spec(max_exons=5 if not big else 6, max_len=8 if not big else 12, frameshift_prob=20, cds_gap_prob=6, cds_overlap_prob=6))
     if len(sp["exons"]) > 1 and "cds" not in sp and draw(st.booleans()):
         # (coding transcripts are documented by their validation messages to take sorted exon lists; non-coding ones need not)
         sp["exon_order"] = list(draw(st.permutations(list(range(len(sp["exons"]))))))
@@ -318,8 +324,8 @@ PROP = Prop(
         Leg("introns", check_introns, strategy=strat_introns, n_quick=600, n_thorough=6000, must_hit=["overlapping_exons"],
             rule="non-coding transcripts whose exons may touch, overlap or nest (1..5 exons, both strands): introns (chromosome and chunk-relative accessor), gaps, span and start/end against span minus the union of the exons"),
         Leg("transcript", check_tx, strategy=strat_tx, examples=EX, n_quick=900, n_thorough=9000, shards_quick=4,
-            must_hit=["cds_reaches_3p&multi_exon", "cds_reaches_5p&multi_exon", "cds_on_exon_boundary", "single_exon_full_cds", "minus", "noncoding", "cds_with_skipped_base", "cds_with_overlapping_blocks", "chunk_cuts_transcript", "chunk_cuts_utr", "exons_given_unsorted"],
-            rule="transcripts (1..5/6 exons, both strands, coding with the CDS a contiguous run [i,j) of the transcript biased to ends and exon boundaries, or non-coding), with/without sequence, on the whole chromosome or seen through a sequence chunk that contains/cuts/misses it; every transcript, CDS and chromosome position in span+-1, random intervals in each system, UTRs, introns"),
+            must_hit=["cds_reaches_3p&multi_exon", "cds_reaches_5p&multi_exon", "cds_on_exon_boundary", "single_exon_full_cds", "minus", "noncoding", "cds_with_skipped_base", "cds_with_overlapping_blocks", "chunk_cuts_transcript", "chunk_cuts_utr", "exons_given_unsorted", "exons>=8"],
+            rule="transcripts (1..5/6 exons, one in ten with 8..14 short exons, both strands, coding with the CDS a contiguous run [i,j) of the transcript biased to ends and exon boundaries, or non-coding), with/without sequence, on the whole chromosome or seen through a sequence chunk that contains/cuts/misses it; every transcript, CDS and chromosome position in span+-1, random intervals in each system, UTRs, introns"),
     ],
     rule="Oracle: PosModel lists T (transcript) and C=T[i:j] (CDS). Non-trivial: multi-exon and (CDS at an end or on an exon boundary or minus strand). "
          "Distinct = canonical JSON.",
